@@ -165,6 +165,35 @@ func oracleRI(lab *txnLab, before map[string]map[string]map[string]val.Val, befo
 		t := &sc.Tables[i]
 		for u, r := range ob.State[t.Name] {
 			all = append(all, rowRefs(t, u, r)...)
+			// weak references were pruned below the column's minimum: the column had enough elements before the
+			// transaction and no operation of the transaction writes it (the library does not check the bounds of what
+			// operations write - known finding C03 class 14 - so only the pruning can be blamed)
+			prev, existed := before[t.Name][u]
+			if !existed || !ob.Committed {
+				continue
+			}
+			for _, c := range t.Cols {
+				n := len(r[c.Name].Set) + len(r[c.Name].Map)
+				pn := len(prev[c.Name].Set) + len(prev[c.Name].Map)
+				if (c.K != 's' && c.K != 'm') || n >= c.Min || pn < c.Min {
+					continue
+				}
+				written := false
+				for _, op := range ops {
+					if op.Table != t.Name {
+						continue
+					}
+					if _, ok := op.Row[c.Name]; ok {
+						written = true
+					}
+					for _, m := range op.Muts {
+						written = written || m.Col == c.Name
+					}
+				}
+				if !written {
+					return fmt.Sprintf("row %s of %s: removing weak references left column %s with %d elements, its minimum is %d, and the transaction was committed", u, t.Name, c.Name, n, c.Min)
+				}
+			}
 		}
 	}
 	strongTo := map[string]bool{}
@@ -252,7 +281,72 @@ func c06Schema() dyn.Schema {
 // c04Schema draws a reference layout: root / non-root tables, strong / weak
 // references in scalar, optional, set, map-key and map-value positions,
 // self references, cycles and chains of non-root tables, min 0 / 1.
+// c04ChainSchema: a root row heads a chain of non-root rows (collected one level per round when the head lets go),
+// and a root row watches the chain through a weak set with a minimum and through a weak map.
+func c04ChainSchema() dyn.Schema {
+	return dyn.Schema{Name: "C04", Tables: []dyn.Table{
+		{Name: "R", IsRoot: true, Cols: []val.Col{{Name: "name", K: 'a', KT: 's'},
+			{Name: "head", K: 'o', KT: 'u', RefTable: "A", RefType: "strong"}}},
+		{Name: "A", Cols: []val.Col{{Name: "name", K: 'a', KT: 's'},
+			{Name: "next", K: 'o', KT: 'u', RefTable: "A", RefType: "strong"}}},
+		{Name: "B", IsRoot: true, Cols: []val.Col{{Name: "name", K: 'a', KT: 's'},
+			{Name: "nodes", K: 's', KT: 'u', Min: 1, Max: -1, RefTable: "A", RefType: "weak"},
+			{Name: "tags", K: 'm', KT: 's', VT: 'u', Max: -1, VRefTable: "A", VRefType: "weak"}}},
+	}}
+}
+
+func c04ChainSeed(tg *txnGen) []TOp {
+	n := []string{tg.fresh(), tg.fresh(), tg.fresh()}
+	g := tg.g
+	watch := val.Val{K: 's'}
+	for i := range n {
+		if i > 0 || g.Chance(0.5) {
+			watch.Set = append(watch.Set, val.Uuid(n[i]))
+		}
+	}
+	return []TOp{
+		{Kind: "insert", Table: "A", UUID: n[2], Row: map[string]val.Val{"name": val.VA(val.Str("n3"))}},
+		{Kind: "insert", Table: "A", UUID: n[1], Row: map[string]val.Val{"name": val.VA(val.Str("n2")), "next": val.VSome(val.Uuid(n[2]))}},
+		{Kind: "insert", Table: "A", UUID: n[0], Row: map[string]val.Val{"name": val.VA(val.Str("n1")), "next": val.VSome(val.Uuid(n[1]))}},
+		{Kind: "insert", Table: "R", UUID: tg.fresh(), Row: map[string]val.Val{"name": val.VA(val.Str("owner")), "head": val.VSome(val.Uuid(n[0]))}},
+		{Kind: "insert", Table: "B", UUID: tg.fresh(), Row: map[string]val.Val{"name": val.VA(val.Str("watcher")), "nodes": watch,
+			"tags": {K: 'm', Map: [][2]val.Atom{{val.Str("a"), val.Uuid(n[1])}, {val.Str("b"), val.Uuid(n[2])}}}}},
+	}
+}
+
+// c04ChainTxn: let go of the chain at its head or in the middle, alone or together with other changes.
+func c04ChainTxn(tg *txnGen) []TOp {
+	g := tg.g
+	var ops []TOp
+	as := tg.uuidsOf("A")
+	switch g.Intn(5) {
+	case 0:
+		ops = append(ops, TOp{Kind: "update", Table: "R", Where: []Cond{}, Row: map[string]val.Val{"head": val.VNone()}})
+	case 1:
+		if len(as) > 0 {
+			ops = append(ops, TOp{Kind: "update", Table: "R", Where: []Cond{}, Row: map[string]val.Val{"head": val.VSome(val.Uuid(as[g.Intn(len(as))]))}})
+		}
+	case 2:
+		if len(as) > 0 {
+			ops = append(ops, TOp{Kind: "update", Table: "A", Where: []Cond{{Col: "_uuid", Fn: "==", Arg: val.VA(val.Uuid(as[g.Intn(len(as))]))}},
+				Row: map[string]val.Val{"next": val.VNone()}})
+		}
+	case 3:
+		ops = append(ops, TOp{Kind: "delete", Table: "R", Where: []Cond{}})
+	default:
+		return c04Txn(tg)
+	}
+	if g.Chance(0.3) && len(as) > 0 {
+		ops = append(ops, TOp{Kind: "mutate", Table: "B", Where: []Cond{}, Muts: []Mut{{Col: "nodes", Mutator: []string{"insert", "delete"}[g.Intn(2)],
+			Arg: val.VS(val.Uuid(as[g.Intn(len(as))]))}}})
+	}
+	return ops
+}
+
 func c04Schema(g *gen.G, i int) dyn.Schema {
+	if i%6 == 5 {
+		return c04ChainSchema()
+	}
 	names := []string{"R", "A", "B", "C"}
 	nt := 2 + g.Intn(3)
 	var tabs []dyn.Table
@@ -409,8 +503,26 @@ func driveC06(o opts) error {
 func driveC04(o opts) error {
 	p := txnProfile{prop: "C04", ncases: 120, ntxn: 8, maxOps: 4, shard: 30,
 		schemas: c04Schema,
-		tune:    func(tg *txnGen) { tg.pInvalid = 0.02; tg.pool = 3; tg.pSelect = 0.03; tg.pWait = 0.0; tg.dangling = 0.05; tg.custom = c04Txn; tg.pCustom = 0.55 },
-		oracle:  oracleRI,
+		tune: func(tg *txnGen) {
+			tg.pInvalid = 0.02
+			tg.pool = 3
+			tg.pSelect = 0.03
+			tg.pWait = 0.0
+			tg.dangling = 0.05
+			tg.custom = c04Txn
+			tg.pCustom = 0.55
+			if len(tg.sc.Tables) == 3 && tg.sc.Tables[0].Cols[len(tg.sc.Tables[0].Cols)-1].Name == "head" {
+				tg.custom = c04ChainTxn
+				tg.pCustom = 0.7
+			}
+		},
+		seed: func(tg *txnGen) []TOp {
+			if len(tg.sc.Tables) == 3 && tg.sc.Tables[0].Cols[len(tg.sc.Tables[0].Cols)-1].Name == "head" {
+				return c04ChainSeed(tg)
+			}
+			return nil
+		},
+		oracle: oracleRI,
 		nontriv: func(ops []TOp, ob tObs) bool {
 			for i, r := range ob.Results {
 				if r.Kind == "err" && i >= len(ops) {
